@@ -16,6 +16,7 @@ CATALOGUE = {
     'Gpartul': dict(ul=True, bbox=(0, 0, 640, 400), tw=4, th=4, res=(80, 40, 20)),
     'Gneg': dict(ul=False, bbox=(-330, -170, 310, 230), tw=4, th=4, res=(80, 40, 20)),
     'Grect': dict(ul=False, bbox=(0, 0, 960, 320), tw=3, th=2, res=(160, 80, 40, 20)),
+    'Grectul': dict(ul=True, bbox=(0, 0, 960, 320), tw=3, th=2, res=(160, 80, 40, 20)),
     'G15': dict(ul=False, bbox=(0, 0, 720, 720), tw=4, th=4, res=(90, 60, 40)),
     'Gcust': dict(ul=False, bbox=(0, 0, 840, 600), tw=4, th=4, res=(140, 60, 40, 20)),
     'Gnear': dict(ul=False, bbox=(0, 0, 1280, 1280), tw=4, th=4, res=(160, 90, 80, 40)),
